@@ -46,3 +46,12 @@ impl Constraint for DupU8 {
         true
     }
 }
+
+/// A constraint whose NAME is not ASCII ("größe"): odd byte length.
+pub struct Uni;
+impl Constraint for Uni {
+    const NAME: &'static str = "größe";
+    fn check(part: &str) -> bool {
+        part.len() % 2 == 1
+    }
+}
